@@ -1,4 +1,5 @@
 import SpgProofs.Properties.C11
+import SpgProofs.Properties.C11b
 #print axioms Spg.C11.le_foldl_max
 #print axioms Spg.C11.le_maxLen
 #print axioms Spg.C11.slices_concat
@@ -12,3 +13,10 @@ import SpgProofs.Properties.C11
 #print axioms Spg.C11.kind_varAtoms
 #print axioms Spg.C11.kind_alternating
 #print axioms Spg.C11.index_bytes
+#print axioms Spg.C11b.All_and
+#print axioms Spg.C11b.char_generated_roundtrip
+#print axioms Spg.C11b.sepCall_bounded
+#print axioms Spg.C11b.body_bounded
+#print axioms Spg.C11b.wl_generated_roundtrip
+#print axioms Spg.C11b.wl_long_word_is_error
+#print axioms Spg.C11b.no_shared_scratch
